@@ -2229,7 +2229,10 @@ impl Element for XmlElement {
                         .iter()
                         .any(|v| equal_qname(v.borrow().qname(), attr.qname()))
                 {
-                    items.push(XmlAttribute::new_from_declaration(attr, self.context()));
+                    let item = XmlAttribute::new_from_declaration(attr, self.context());
+                    // The owner element determines the declared type used for normalization.
+                    item.borrow_mut().set_parent_id(Some(self.id()));
+                    items.push(item);
                 }
             }
         }
